@@ -46,6 +46,10 @@ func (e *Enc) query(o *Obl, models bool) string { return e.queryS(o, models, fal
 
 // queryS: sliced = leave out facts that belong to other paths (see relevantFacts)
 func (e *Enc) queryS(o *Obl, models bool, sliced bool) string {
+	return e.queryOpt(o, models, sliced, false)
+}
+
+func (e *Enc) queryOpt(o *Obl, models bool, sliced bool, skolem bool) string {
 	var b strings.Builder
 	b.WriteString("; obligation " + o.Name + "\n")
 	if models {
@@ -59,12 +63,37 @@ func (e *Enc) queryS(o *Obl, models bool, sliced bool) string {
 	}
 	b.WriteString("(assert " + o.Guard.String() + ")\n")
 	if o.Kind != "cover" {
-		b.WriteString("(assert (not " + o.Goal.String() + "))\n")
+		if skolem {
+			b.WriteString(negatedGoal(o.Goal))
+		} else {
+			b.WriteString("(assert (not " + o.Goal.String() + "))\n")
+		}
 	}
 	b.WriteString("(check-sat)\n")
 	if models {
 		b.WriteString("(get-model)\n")
 	}
+	return b.String()
+}
+
+// querySkolem: the same query with the goal's leading universal quantifiers skolemised by hand.
+func (e *Enc) querySkolem(o *Obl) string {
+	return e.queryOpt(o, false, false, true)
+}
+
+// negatedGoal: (assert (not G)); the leading universal quantifiers of G are skolemised by
+// hand (their bound names are unique, so they are simply declared as constants): the solvers
+// then match the quantified hypotheses against ground terms, which they often fail to do
+// through their own skolemisation of not-forall.
+func negatedGoal(g *Term) string {
+	var b strings.Builder
+	for g.Op == "forall" && len(g.Args) == 1 {
+		for _, q := range g.Q {
+			b.WriteString("(declare-const " + quoteSym(q.Name) + " " + q.S.String() + ")\n")
+		}
+		g = g.Args[0]
+	}
+	b.WriteString("(assert (not " + g.String() + "))\n")
 	return b.String()
 }
 
@@ -291,6 +320,14 @@ func raceOne(e *Enc, o *Obl, cfg *SolverCfg, base string) {
 	}
 	runs := append([]solverSpec{}, solvers...)
 	runs = append(runs, solverSpec{"z3-new/sliced", func(_ string, t int) []string { return []string{"z3-new", fmt.Sprintf("-T:%d", t), slicedFile} }})
+	if o.Goal != nil && o.Goal.Op == "forall" && o.Kind != "cover" {
+		skFile := strings.TrimSuffix(file, ".smt2") + ".skolem.smt2"
+		os.WriteFile(skFile, []byte(e.querySkolem(o)), 0o644)
+		if !cfg.KeepFiles {
+			defer os.Remove(skFile)
+		}
+		runs = append(runs, solverSpec{"z3-new/skolem", func(_ string, t int) []string { return []string{"z3-new", fmt.Sprintf("-T:%d", t), skFile} }})
+	}
 	ch := make(chan ans, len(runs))
 	for _, s := range runs {
 		go func(s solverSpec) {
